@@ -6,6 +6,7 @@ import (
 	"fmt"
 	"os"
 	"runtime/debug"
+	"sync/atomic"
 	"time"
 
 	"github.com/aml-org/amf-custom-validator/pkg"
@@ -14,9 +15,23 @@ import (
 	"github.com/open-policy-agent/opa/rego"
 )
 
-// DebugFlag is the value passed as the `debug` argument of every entry point by the wrappers below. No property
-// depends on it, so every second worker process runs with debug=true (VERIF_DEBUG=1, inherited by helper processes).
-var DebugFlag = os.Getenv("VERIF_DEBUG") == "1"
+// Debug gives the value passed as the `debug` argument of every entry point by the wrappers below. No property
+// depends on it: workers 1, 5, 9, 13 pass true throughout (VERIF_DEBUG=1, inherited by helper processes), workers 3, 7,
+// 11, 15 change it from call to call (VERIF_DEBUG=alt: a call with debug=true follows calls with debug=false and back,
+// inside one process, in a fixed pseudo-random pattern).
+var debugMode = os.Getenv("VERIF_DEBUG")
+var debugCalls uint64
+
+func Debug() bool {
+	switch debugMode {
+	case "1":
+		return true
+	case "alt":
+		n := atomic.AddUint64(&debugCalls, 1)
+		return (n*2654435761>>5)&1 == 1
+	}
+	return false
+}
 
 // FixedClock is the injected ValidationConfiguration: no oracle ever depends on the wall clock.
 type FixedClock struct{ T time.Time }
@@ -59,14 +74,14 @@ func Validate(profile, data string) (o Outcome) {
 
 func ValidateCfg(profile, data string, ch *chan events.Event, vc config.ValidationConfiguration, rc config.ReportConfiguration) (o Outcome) {
 	defer guard(&o)
-	o.Report, o.Err = pkg.ValidateWithConfiguration(profile, data, DebugFlag, ch, vc, rc)
+	o.Report, o.Err = pkg.ValidateWithConfiguration(profile, data, Debug(), ch, vc, rc)
 	return
 }
 
 // ValidateDefault calls pkg.Validate (wall clock inside the report).
 func ValidateDefault(profile, data string, ch *chan events.Event) (o Outcome) {
 	defer guard(&o)
-	o.Report, o.Err = pkg.Validate(profile, data, DebugFlag, ch)
+	o.Report, o.Err = pkg.Validate(profile, data, Debug(), ch)
 	return
 }
 
@@ -98,7 +113,7 @@ func Compile(profile string, ch *chan events.Event) (c Compiled) {
 			c.Stack = string(debug.Stack())
 		}
 	}()
-	c.Q, c.Err = pkg.CompileProfile(profile, DebugFlag, ch)
+	c.Q, c.Err = pkg.CompileProfile(profile, Debug(), ch)
 	return
 }
 
@@ -108,13 +123,13 @@ func ValidateCompiled(q *rego.PreparedEvalQuery, data string) Outcome {
 
 func ValidateCompiledCfg(q *rego.PreparedEvalQuery, data string, ch *chan events.Event, vc config.ValidationConfiguration, rc config.ReportConfiguration) (o Outcome) {
 	defer guard(&o)
-	o.Report, o.Err = pkg.ValidateCompiledWithConfiguration(q, data, DebugFlag, ch, vc, rc)
+	o.Report, o.Err = pkg.ValidateCompiledWithConfiguration(q, data, Debug(), ch, vc, rc)
 	return
 }
 
 func ValidateCompiledDefault(q *rego.PreparedEvalQuery, data string, ch *chan events.Event) (o Outcome) {
 	defer guard(&o)
-	o.Report, o.Err = pkg.ValidateCompiled(q, data, DebugFlag, ch)
+	o.Report, o.Err = pkg.ValidateCompiled(q, data, Debug(), ch)
 	return
 }
 
